@@ -966,6 +966,13 @@ func (d *Driver) nextRaw() Event {
 				if len(done) > 0 && d.R.Intn(5) != 0 {
 					sh = done[d.R.Intn(len(done))]
 				}
+				// a shard that is only being handed over: its new provider holds nothing yet and cannot be at fault
+				for _, x := range d.St.Shards {
+					if x.Status == 4 && d.R.Intn(3) == 0 {
+						sh = x
+						break
+					}
+				}
 				if fe, ok := mk(sh); ok {
 					accused = sh.Sp
 					switch d.R.Intn(16) {
